@@ -47,7 +47,7 @@ class TwoRateTokenBucket(Device):
 
         self.current_bucket_commit = cbs
         self.current_bucket_peak = pbs
-        self.update_time = 0.0  # Last time the bucket was updated
+        self.update_time = env.now  # Last time the bucket was updated
         self.debug = debug
         self.busy = 0  # Used to track if a packet is currently being sent
         self.action = env.process(self.run(env))
